@@ -71,3 +71,18 @@ Example C08_hit_for_pass_restored :
   option_map (fun s => nth_error (map obs_of (ts s)) 1) (run (init 1000000 30 true false) ls)
   = Some (Some (TUpstream LHitForPass)).
 Proof. vm_compute. reflexivity. Qed.
+
+(** ** restart of the composed multi-key cache (Model/Multi.v): one crash for
+    all keys; afterwards no key has a resident entry and every key's store
+    record is exactly what it was -- so each key restarts from its record under
+    the per-key statements above (which hold for every key of the composition,
+    C01_composition_projects). *)
+From Coq Require Import NArith.
+From Pike Require Model.Multi Proofs.MultiProofs.
+Theorem C08_restart_of_the_whole_cache :
+  forall (K : Type) (keqb : K -> K -> bool), (forall a b, keqb a b = true <-> a = b) ->
+  forall (hash : K -> N) m m', Pike.Model.Multi.mstep keqb hash m Pike.Model.Multi.MCrash = Some m' ->
+  forall k, Pike.Model.Multi.live keqb m' k = false /\
+            store (Pike.Model.Multi.sys_of keqb m' k) = store (Pike.Model.Multi.sys_of keqb m k).
+Proof. intros K keqb Hk hash. exact (Pike.Proofs.MultiProofs.composed_crash keqb hash). Qed.
+Print Assumptions C08_restart_of_the_whole_cache.
